@@ -14,6 +14,7 @@ import hashlib
 import json
 import os
 import random
+import signal
 import sys
 from collections import Counter
 
@@ -32,6 +33,19 @@ class InjectedInterrupt(KeyboardInterrupt):
 
 class SimCrash(BaseException):
     """Simulated process crash (raised out of a write on the simulated disk)."""
+
+
+class StepTimeout(BaseException):
+    """A single step (one API call plus its oracle) exceeded STEP_LIMIT_S of wall
+    time: the call hangs.  Reported as a violation of the property that promises
+    the call's outcome, never silently killed."""
+
+
+STEP_LIMIT_S = float(os.environ.get("VERIF_STEP_LIMIT", "5"))
+
+
+def _on_alarm(signum, frame):
+    raise StepTimeout()
 
 
 def h64(*parts):
@@ -161,7 +175,7 @@ class World:
         Ctrl-C and harness errors are not."""
         try:
             return fn(*a, **k), None
-        except HarnessError:
+        except (HarnessError, StepTimeout):
             raise
         except KeyboardInterrupt as e:
             if isinstance(e, InjectedInterrupt):
@@ -179,9 +193,17 @@ class World:
             raise HarnessError("unknown op %r in world %s" % (step["op"], self.NAME))
         before = self.abstract_state()
         try:
-            outcome = op(step) or "ok"
+            signal.setitimer(signal.ITIMER_REAL, STEP_LIMIT_S)
+            try:
+                outcome = op(step) or "ok"
+            finally:
+                signal.setitimer(signal.ITIMER_REAL, 0)
         except Skip:
             outcome = "skipped"
+        except StepTimeout:
+            self.fail(self.prop_of(step), "step.hang", "%s did not return within %g s of wall time (a step "
+                      "normally takes milliseconds)" % (step["op"], STEP_LIMIT_S), "a result", "no return")
+            outcome = "hang"
         except HarnessError:
             raise
         except Exception as e:  # noqa: BLE001
@@ -216,6 +238,7 @@ def execute_run(world_cls, cfg, steps=None, rngs=None):
     outcomes = []
     saved_stdout = sys.stdout
     sys.stdout = SINK
+    signal.signal(signal.SIGALRM, _on_alarm)
     try:
         w.setup()
         i = 0
